@@ -350,6 +350,7 @@ def run(c):
             b = dbutil.canon_rows(L.conn.execute(text).fetchall())
             if a != b:
                 c.violation("SQL that references no semantic model does not return what the database returns for it", {"kind": "pass", "sql": text})
+    default_time_renderings(c, stats)
     # plain SQL whose CTE happens to carry a model's name: the outer SELECT reads the CTE (SQL scoping), no semantic model is referenced
     for text in SHADOWED:
         stats["passthrough_checked"] += 1
@@ -368,6 +369,43 @@ def run(c):
                                "ORDER BY all dimensions, LIMIT/OFFSET) x renderings (qualified FROM model, FROM metrics, unqualified, unqualified incl. WHERE, wrapped in a CTE, wrapped in a sub-select, SELECT *) "
                                "x tables of 0-15 rows; 14 malformed / foreign statements; non-trivial = agreeing rendering with more than one row",
                        "traces_validated_against_impl": stats["renderings"], "distribution": stats, "exhaustive": False})
+
+
+def default_time_renderings(c, stats):
+    """a model that declares a DEFAULT TIME DIMENSION: a metric selected without any time dimension is grouped by it (C07's rule) -- in the structured query and in every
+    SQL rendering of it alike, top-level or wrapped in a CTE / sub-select"""
+    import random
+    rng = random.Random(c.seed * 43 + 12)          # a stream of its own
+    n = 0
+    for k in range(4 if c.tier == "quick" else 40):
+        data = gen_data(rng)
+        L = layer(*data)
+        om = L.graph.models["orders"]
+        om.default_time_dimension, om.default_grain = "created", rng.choice(["month", "day", "year"])
+        for fields, filters in (([("orders", "revenue", None)], []), ([("orders", "n", None), ("orders", "status", None)], ["orders.channel = 'web'"]), ([("orders", "revenue", "rev_total")], [])):
+            q = dict(fields=fields, filters=filters, order=[], limit=None, offset=None, single=True)
+            try:
+                want_cols, want_rows = structured_run(L, q)
+            except Exception as e:
+                c.violation("the structured query over a model with a default time dimension fails: %s" % str(e)[:140], {"kind": "default_time", "data": data, "query": q})
+                continue
+            rename = {a: f for m, f, a in fields if a}
+            for st in ("qualified", "unqualified", "cte", "cte_shadow", "subselect", "two_ctes"):
+                text = sql_text(q, st)
+                n += 1
+                stats["renderings"] += 1
+                try:
+                    res = L.sql(text)
+                    got_cols = [d[0] for d in res.description]
+                    got = dbutil.canon_rows(res.fetchall())
+                    err = None
+                except Exception as e:
+                    got_cols, got, err = None, None, e
+                if err is not None or aligned(got_cols, got, rename, False) != aligned(want_cols, dbutil.canon_rows(want_rows), {}, False):
+                    c.violation("the SQL text and the structured query disagree on a model with a default time dimension (%s rendering)%s" % (st, ": " + str(err)[:120] if err else ""),
+                                {"kind": "default_time", "style": st, "sql": text, "data": data, "default_grain": om.default_grain, "sql_path": {"columns": got_cols, "rows": [list(map(str, r)) for r in (got or [])[:8]]},
+                                 "structured": {"columns": want_cols, "rows": [list(map(str, r)) for r in dbutil.canon_rows(want_rows)[:8]]}})
+    return n
 
 
 def aligned(cols, rows, rename, ordered):
